@@ -720,6 +720,20 @@ def apply_step(run, rng, op, obj, model, step):
         m2.prim = model.prim.reshape((-1,) + model.prim.shape[model.prim.ndim - model.unit:])
         return new, m2, "ok"
     if op == "index":
+        nvert = model.prim.shape[-2] if "Polygon" in kind else 0
+        if nvert >= 4 and rng.random() < 0.35:
+            # an index that reaches the vertex axis of a polygon: a polygon on
+            # fewer / reordered vertices, whose edges must be those of the new
+            # vertex list (seeded change C11-r2-2: aux_data[item] carried along)
+            lead = (slice(None),) * len(shape)
+            vkey = [slice(0, 3), slice(None, None, 2), slice(None, None, -1),
+                    slice(1, None)][int(rng.integers(0, 4))]
+            key = lead + (vkey,) if shape else vkey
+            if len(range(*vkey.indices(nvert))) >= 3:
+                new = obj[key]
+                m2 = copy.copy(model)
+                m2.prim = model.prim[key]
+                return new, m2, "ok"
         if not shape:
             return obj, model, "skip:unit object"
         r = int(rng.integers(0, 4))
@@ -914,6 +928,70 @@ def wl_setitem_combine(run, rng, idx):
     _state["history"] = None
 
 
+def wl_integer_primary(run, rng, idx):
+    """objects built from INTEGER-typed primary data: the derived data is
+    fractional in general and must not be truncated to the primary data's dtype
+    (seeded change C11-r2-1: TangentVector aux written into a copy of integer
+    proj_data).  The library's own recomputation shares such a defect, so this is
+    judged by the library-free reference formula only."""
+    from geometry_tools import hyperbolic as H
+    ref = run.monitor("aux-reference")
+    kind = ["H.TangentVector", "H.Segment", "H.Polygon"][idx % 3]
+    n = 2 + (idx // 3) % 2
+    k = [None, 3][(idx // 6) % 2]
+
+    def int_interior():
+        while True:
+            x = rng.integers(-3, 4, size=n)
+            t = int(rng.integers(3, 7))
+            if t * t - int(np.sum(x * x)) >= 0.3 * t * t:
+                return np.concatenate([[t], x]).astype(np.int64)
+
+    def unit():
+        if kind == "H.TangentVector":
+            while True:
+                v = rng.integers(-3, 4, size=n + 1)
+                p = int_interior()
+                w = rh.tangent_project(p.astype(float), v.astype(float))
+                if rh.mink_sq(w) > 0.2:
+                    return np.stack([p, v]).astype(np.int64)
+        if kind == "H.Segment":
+            while True:
+                p, q = int_interior(), int_interior()
+                if np.linalg.norm(p[1:] / p[0] - q[1:] / q[0]) > 0.2:
+                    return np.stack([p, q])
+        while True:
+            vs = np.stack([int_interior() for _ in range(4)])
+            kl = vs[:, 1:] / vs[:, :1]
+            if min(np.linalg.norm(kl[i] - kl[(i + 1) % 4]) for i in range(4)) > 0.2:
+                return vs
+    data = unit() if k is None else np.stack([unit() for _ in range(k)])
+    case = {"kind": kind, "dimension": n, "integer_primary_data": data}
+    run.current_case = case
+    cls = G.class_of(kind)
+    routes = [lambda: cls(data.copy()), lambda: cls(data.tolist())]
+    if kind == "H.TangentVector":
+        routes.append(lambda: cls(H.Point(data[..., 0, :].copy()), data[..., 1, :].copy()))
+    for r, build in enumerate(routes):
+        obj = build()
+        with np.errstate(all="ignore"):
+            d = G.reference_aux_dev(kind, np.asarray(obj.proj_data, dtype=float),
+                                    np.asarray(obj.aux_data, dtype=float))
+        ref.judge(d, 1e-6, "aux-reference/%s/integer-primary-data" % kind,
+                  "derived data of a %s built from integer-typed primary data is not what the "
+                  "reference formula gives (truncated?)" % kind, dict(case, route=r))
+        # and after an item assignment / an isometry
+        if k is not None:
+            obj[0] = cls(unit())
+            with np.errstate(all="ignore"):
+                d = G.reference_aux_dev(kind, np.asarray(obj.proj_data, dtype=float),
+                                        np.asarray(obj.aux_data, dtype=float))
+            ref.judge(d, 1e-6, "aux-reference/%s/integer-primary-data/after:setitem" % kind,
+                      "derived data after item assignment into an integer-typed %s" % kind,
+                      dict(case, route=r))
+    run.note_class("integer-primary", kind, n, k)
+
+
 def wl_queries(run, rng, idx):
     """read-only queries on every kind of object (write watch), composite and
     unit, with caller-owned arrays passed where the API takes arrays."""
@@ -1005,4 +1083,5 @@ WORKLOADS = [
     Workload("history", wl_history, quick=600, thorough=16000),
     Workload("setitem-combine", wl_setitem_combine, quick=200, thorough=3000),
     Workload("queries", wl_queries, quick=190, thorough=2850),
+    Workload("integer-primary", wl_integer_primary, quick=48, thorough=960),
 ]
